@@ -228,8 +228,9 @@ Section Generic.
     destruct (process_results sch c (sst st) (mark_failed (mark_completed (be st) compl) fl) [] compl rs) as [[[s1 b1] done] ev1].
     simpl in H1.
     set (s1' := fold_left (on_error sch) (filter (fun i => negb (mem_Z i done)) fl) s1).
-    destruct (exhausted st).
-    - pose proof (loop_end_wf s1' b1 (spec_choice it) (p ++ ev1)) as H3.
+    destruct (exhausted st || hold it).
+    - match goal with |- context [if nilb ?r then _ else _] => destruct (nilb r) end; [simpl; exact H1|].
+      pose proof (loop_end_wf s1' b1 (spec_choice it) (p ++ ev1)) as H3.
       destruct (loop_end sch c s1' b1 (spec_choice it)) as [[s3 b3] ev3]. simpl in *.
       apply wf_from_app. tauto.
     - pose proof (schedule_nodel (sugg it) s1' b1 (filter (fun i => negb (mem_Z i done) && negb (mem_Z i compl) && negb (mem_Z i fl)) run0)) as H2.
@@ -719,8 +720,10 @@ Section ResumeSafe.
     set (s1' := fold_left (on_error sch) (filter (fun i => negb (mem_Z i done)) fl) s1) in *.
     assert (bounded (new_trial_id b1) run1) as Hr1.
     { intros x Hx. apply filter_In in Hx as [Hx _]. rewrite Hid1, mark_failed_ids, mark_completed_ids. exact (Hr x Hx). }
-    destruct (exhausted st).
-    - destruct (loop_end sch c s1' b1 (spec_choice it)) as [[s3 b3] ev3] eqn:E3.
+    destruct (exhausted st || hold it).
+    - destruct (nilb run1).
+      { injection E as <- <- <-. split; [exact Hrs1|]. split; [exact HI1|]. split; [exact Hr1|exact Hra1]. }
+      destruct (loop_end sch c s1' b1 (spec_choice it)) as [[s3 b3] ev3] eqn:E3.
       injection E as <- <- <-.
       destruct (loop_end_safe _ _ _ _ _ _ _ HI1 E3) as [Hid3 [Hrs3 [HI3 Hac3]]].
       rewrite rs_from_app, dset_app. split; [tauto|]. split; [|split]; simpl; try (rewrite Hid3; assumption).
@@ -877,8 +880,9 @@ Section EndSection.
     pose proof (process_results_NE compl rs (sst st) (mark_failed (mark_completed (be st) compl) fl) []) as H1.
     destruct (process_results sch c (sst st) _ [] compl rs) as [[[s1 b1] done] ev1]. simpl in H1.
     set (s1' := fold_left (on_error sch) _ s1).
-    destruct (exhausted st).
-    - pose proof (loop_end_NE s1' b1 (spec_choice it)) as H3.
+    destruct (exhausted st || hold it).
+    - match goal with |- context [if nilb ?r then _ else _] => destruct (nilb r) end; [simpl; exact H1|].
+      pose proof (loop_end_NE s1' b1 (spec_choice it)) as H3.
       destruct (loop_end sch c s1' b1 (spec_choice it)) as [[s3 b3] ev3]. simpl in *.
       apply Forall_app. split; assumption.
     - match goal with |- context [schedule sch s1' b1 ?r (sugg it)] => pose proof (schedule_NE (sugg it) s1' b1 r) as H2;
@@ -1325,9 +1329,9 @@ Definition wcfg := {| delete_checkpoints := true; remove_callback := false; spec
 Definition wprm := {| pp_max_t := 3; pp_interval := 1; pp_qf := 1 # 2 |}.
 (* two workers; one poll delivers 0@1 1@1 0@2 1@2 1@3 (score of trial 0 below trial 1) *)
 Definition wits : list (iter_in (Q * Q * Z) Z) :=
-  [ {| reports := []; completed := []; failed := []; sugg := [0%Z; 0%Z]; spec_choice := [] |};
+  [ {| reports := []; completed := []; failed := []; hold := false; sugg := [0%Z; 0%Z]; spec_choice := [] |};
     {| reports := [(0%Z, (1, 1, 0%Z)); (1%Z, (1, 2, 0%Z)); (0%Z, (2, 1, 1%Z)); (1%Z, (2, 2, 0%Z)); (1%Z, (3, 2, 0%Z))];
-       completed := []; failed := []; sugg := [0%Z; 0%Z]; spec_choice := [] |} ].
+       completed := []; failed := []; hold := false; sugg := [0%Z; 0%Z]; spec_choice := [] |} ].
 Definition wpre : list event :=
   [EStart 0 None; ESchedule 0; EStart 1 None; ESchedule 1; EDecision 0 CONTINUE; EDecision 1 CONTINUE; EDecision 0 STOP; EClone 0 1;
    EStop 0; EDelete 0 WStop; EDecision 1 CONTINUE; EDecision 1 STOP; EStop 1; EDelete 1 WStop;
@@ -1560,8 +1564,10 @@ Section PbtStack.
     destruct (process_results sch c (sst st) _ [] compl rs) as [[[s1 b1] done] ev1] eqn:E1.
     destruct (pbt_process_results_cp _ _ _ _ _ _ _ _ _ _ HI E1) as [A1 B1].
     rewrite pbt_on_error_fold in E.
-    destruct (exhausted st).
-    - destruct (pbt_loop_end_cp s1 b1 (spec_choice it) (cset C ev1)) as [L1 [L2 L3]].
+    destruct (exhausted st || hold it).
+    - match type of E with context [if nilb ?r then _ else _] => destruct (nilb r) end.
+      { injection E as <- <- <-. simpl. split; [exact A1|exact B1]. }
+      destruct (pbt_loop_end_cp s1 b1 (spec_choice it) (cset C ev1)) as [L1 [L2 L3]].
       destruct (loop_end sch c s1 b1 (spec_choice it)) as [[s3 b3] ev3]. simpl in *. subst s3.
       injection E as <- <- <-. simpl. rewrite cp_from_app, cset_app, L3. tauto.
     - destruct (schedule sch s1 b1 _ (sugg it)) as [[[[[s2 b2] run2] ex] er2] ev2] eqn:E2.
@@ -1761,8 +1767,9 @@ Section SchedOrder.
     pose proof (process_results_NS compl rs (sst st) (mark_failed (mark_completed (be st) compl) fl) []) as H1.
     destruct (process_results sch c (sst st) _ [] compl rs) as [[[s1 b1] done] ev1]. simpl in H1.
     set (s1' := fold_left (on_error sch) _ s1).
-    destruct (exhausted st).
-    - pose proof (loop_end_NS s1' b1 (spec_choice it)) as H3.
+    destruct (exhausted st || hold it).
+    - match goal with |- context [if nilb ?r then _ else _] => destruct (nilb r) end; [simpl; apply sf_from_NS; exact H1|].
+      pose proof (loop_end_NS s1' b1 (spec_choice it)) as H3.
       destruct (loop_end sch c s1' b1 (spec_choice it)) as [[s3 b3] ev3]. simpl in *.
       apply sf_from_NS. apply Forall_app. split; assumption.
     - match goal with |- context [schedule sch s1' b1 ?r (sugg it)] =>
